@@ -376,3 +376,35 @@ package pilosa
 //@   ensures pcnt(prev) > 0 && pcnt(v) > 0 && pid(prev) < pid(v) ==> pid(result) == pid(v) && pcnt(result) == pcnt(v)
 //@   ensures pcnt(prev) > 0 && pcnt(v) == 0 ==> pid(result) == pid(prev) && pcnt(result) == pcnt(prev)
 //@   ensures pcnt(prev) == 0 ==> pid(result) == pid(v) && pcnt(result) == pcnt(v)
+
+// ---- C24: translate-log offset arithmetic -----------------------------------------
+
+// uVarintSize is the number of bytes binary.PutUvarint writes for x: the least k >= 1
+// with x < 2^(7k).  applyEntry and LogEntry.ReadFrom add it to the running offset
+// that locates each key's length prefix in the translate file.
+//@ contract uVarintSize props C24
+//@   ensures 1 <= result && result <= 10
+//@   ensures result == 1 <==> x < pow2(7)
+//@   ensures result == 2 <==> pow2(7) <= x && x < pow2(14)
+//@   ensures result == 3 <==> pow2(14) <= x && x < pow2(21)
+//@   ensures result == 4 <==> pow2(21) <= x && x < pow2(28)
+//@   ensures result == 5 <==> pow2(28) <= x && x < pow2(35)
+//@   ensures result == 6 <==> pow2(35) <= x && x < pow2(42)
+//@   ensures result == 7 <==> pow2(42) <= x && x < pow2(49)
+//@   ensures result == 8 <==> pow2(49) <= x && x < pow2(56)
+//@   ensures result == 9 <==> pow2(56) <= x && x < pow2(63)
+//@   ensures result == 10 <==> pow2(63) <= x
+//@   modifies nothing
+//@   loop 1 invariant 0 <= i && i <= 9
+//@   loop 1 invariant i >= 1 ==> x >= 1
+//@   loop 1 invariant i == 0 ==> x == x_0
+//@   loop 1 invariant i == 1 ==> x == x_0 / pow2(7)
+//@   loop 1 invariant i == 2 ==> x == x_0 / pow2(14)
+//@   loop 1 invariant i == 3 ==> x == x_0 / pow2(21)
+//@   loop 1 invariant i == 4 ==> x == x_0 / pow2(28)
+//@   loop 1 invariant i == 5 ==> x == x_0 / pow2(35)
+//@   loop 1 invariant i == 6 ==> x == x_0 / pow2(42)
+//@   loop 1 invariant i == 7 ==> x == x_0 / pow2(49)
+//@   loop 1 invariant i == 8 ==> x == x_0 / pow2(56)
+//@   loop 1 invariant i == 9 ==> x == x_0 / pow2(63)
+//@   loop 1 decreases x
